@@ -88,32 +88,55 @@ UNREACHABLE = [
 ]
 
 
+# (module path, attribute chain) of the anchored functions; resolved tolerantly:
+# a name a rewrite removed or renamed is skipped and reported in MISSING (line
+# coverage is information only and must never fail a check)
+ANCHORED = [
+    ('Kernel.Volume.VolumeT4', 'VolumeT4.__init__'),
+    ('Kernel.Volume.VolumeT4', 'VolumeT4.__str__'),
+    ('Kernel.Volume.VolumeT4', 'VolumeT4.copy'),
+    ('Kernel.Volume.VolumeT4', 'VolumeT4.comment'),
+    ('Kernel.Volume.VolumeT4', 'VolumeT4.empty'),
+    ('Kernel.Volume.VolumeT4', 'VolumeT4.surface_ids'),
+    ('Kernel.Surface.SurfaceT4', 'SurfaceT4.__str__'),
+    ('Kernel.Surface.SurfaceT4', 'SurfaceT4.transform_block'),
+    ('Kernel.Surface.SurfaceT4', 'SurfaceT4.comment'),
+    ('Kernel.Surface.SurfaceT4', 'SurfaceT4.__eq__'),
+    ('Kernel.Surface.SurfaceT4', 'SurfaceT4.__hash__'),
+    ('Kernel.Surface.Duplicates', 'remove_duplicate_surfaces'),
+    ('Kernel.Surface.Duplicates', 'renumber_surfaces'),
+    ('Kernel.Volume.ConstructVolumeT4', 'remove_empty_volumes'),
+    ('Kernel.Volume.ConstructVolumeT4', 'remove_unused_volumes'),
+    ('Kernel.Volume.ConstructVolumeT4', 'extract_used_surfaces'),
+    ('Kernel.FileHandlers.Writer.WriteT4Geometry', 'convertMCNPGeometry'),
+    ('Kernel.FileHandlers.Writer.WriteT4Geometry', 'writeT4Geometry'),
+    ('Kernel.FileHandlers.Writer.WriteT4Composition', 'writeT4Composition'),
+    ('Kernel.Composition.ConstructCompositionT4', 'constructCompositionT4'),
+    ('Kernel.FileHandlers.Writer.WriteT4GeomComp', 'writeT4GeomComp'),
+    ('Kernel.GeomComp.ConstructGeomCompT4', 'constructGeomCompT4'),
+    ('Kernel.FileHandlers.Writer.WriteT4BoundCond', 'writeT4BoundCond'),
+    ('Kernel.BoundaryCondition.CConversionBoundaryCondition',
+     'CConversionBoundaryCondition.recuperateBoundaryCondition'),
+    ('Kernel.BoundaryCondition.CConversionBoundaryCondition',
+     'CConversionBoundaryCondition.conversionBoundCond'),
+]
+MISSING = []
+
+
 def anchored_functions():
-    from t4_geom_convert.Kernel.FileHandlers.Writer import (
-        WriteT4Geometry, WriteT4Composition, WriteT4GeomComp, WriteT4BoundCond)
-    from t4_geom_convert.Kernel.Volume.VolumeT4 import VolumeT4
-    from t4_geom_convert.Kernel.Volume import ConstructVolumeT4
-    from t4_geom_convert.Kernel.Surface import Duplicates
-    from t4_geom_convert.Kernel.Surface.SurfaceT4 import SurfaceT4
-    from t4_geom_convert.Kernel.GeomComp import ConstructGeomCompT4
-    from t4_geom_convert.Kernel.Composition import ConstructCompositionT4
-    from t4_geom_convert.Kernel.BoundaryCondition.CConversionBoundaryCondition \
-        import CConversionBoundaryCondition
-    return [
-        VolumeT4.__init__, VolumeT4.__str__, VolumeT4.copy, VolumeT4.comment,
-        VolumeT4.empty, VolumeT4.surface_ids,
-        SurfaceT4.__str__, SurfaceT4.transform_block, SurfaceT4.comment,
-        SurfaceT4.__eq__, SurfaceT4.__hash__,
-        Duplicates.remove_duplicate_surfaces, Duplicates.renumber_surfaces,
-        ConstructVolumeT4.remove_empty_volumes,
-        ConstructVolumeT4.remove_unused_volumes,
-        ConstructVolumeT4.extract_used_surfaces,
-        WriteT4Geometry.convertMCNPGeometry, WriteT4Geometry.writeT4Geometry,
-        WriteT4Composition.writeT4Composition,
-        ConstructCompositionT4.constructCompositionT4,
-        WriteT4GeomComp.writeT4GeomComp,
-        ConstructGeomCompT4.constructGeomCompT4,
-        WriteT4BoundCond.writeT4BoundCond,
-        CConversionBoundaryCondition.recuperateBoundaryCondition,
-        CConversionBoundaryCondition.conversionBoundCond,
-    ]
+    import importlib
+    import types as _types
+    funcs = []
+    del MISSING[:]
+    for modname, chain in ANCHORED:
+        try:
+            obj = importlib.import_module('t4_geom_convert.' + modname)
+            for part in chain.split('.'):
+                obj = getattr(obj, part)
+            obj = getattr(obj, '__func__', obj)
+            if not isinstance(getattr(obj, '__code__', None), _types.CodeType):
+                raise AttributeError(chain)
+            funcs.append(obj)
+        except Exception:      # pylint: disable=broad-except
+            MISSING.append(f'{modname}.{chain}')
+    return funcs
